@@ -172,13 +172,14 @@ def runOne (sid : String) (schema : Schema) (deliver : Schema → Item → Key) 
 
 /-! ### the generated struct family (harness/src/props/c18_family.rs)
 
-The schema id is `<struct>~<spec>`; `<spec>` = fields `name:kind:default:type:alias:token` joined
-by `/` (kind p|d|t, default n|y|p, type i|o|s|v, alias / token `-` = none).  The spec comes from
+The schema id is `<struct>~<spec>`; `<spec>` = fields `name:kind:default:type:alias:token:auto` joined
+by `/` (kind p|d|t, default n|y|p, value type i|o|s|v|z, alias / token `-` = none) plus the
+auto-default bit `y|n` the generator computed from the type's SPELLING by the macro's own rule.  The spec comes from
 the same generator that wrote the Rust structs, so there is no second table to keep in step. -/
 
 def parseFieldSpec (s : String) : Option (FieldSpec × Char) :=
   match s.splitOn ":" with
-  | [name, k, d, ty, al, tk] =>
+  | [name, k, d, ty, al, tk, auto] =>
     let kind? : Option Kind := match k with | "p" => some .plain | "d" => some .duplicated | "t" => some .takeLast | _ => none
     let dflt? : Option Dflt := match d with | "n" => some .no | "y" => some .yes | "p" => some .path | _ => none
     match kind?, dflt?, ty.toList with
@@ -186,7 +187,7 @@ def parseFieldSpec (s : String) : Option (FieldSpec × Char) :=
       let token? : Option (Option Nat) := if tk == "-" then some none else tk.toNat?.map some
       token?.map fun token =>
         ({ name := name, alias := if al == "-" then none else some al, token := token, kind := kind, dflt := dflt,
-           isOption := c == 'o' && kind != .duplicated }, c)
+           isOption := auto == "y" }, c)
     | _, _, _ => none
   | _ => none
 
@@ -195,14 +196,14 @@ def parseSpec (s : String) : Option (List (FieldSpec × Char)) := (s.splitOn "/"
 /-- rendering of one deserialized value of element / field type `ty` -/
 def famVal (ty : Char) : Val → Except String String
   | .int i => if ty == 'i' || ty == 'o' then .ok (toString i) else .error "err:other"
-  | .str h => if ty == 's' then .ok s!"s:{h}" else .error "err:other"
+  | .str h => if ty == 's' || ty == 'z' then .ok s!"s:{h}" else .error "err:other"
   | .arr l => if ty == 'v' then .ok ("[" ++ ".".intercalate (l.map toString) ++ "]") else .error "err:other"
   | _ => .error "err:other"
 
 def famShow (f : FieldSpec) (ty : Char) : FieldVal String → String
   | .val r => r
   | .vec l => "[" ++ ".".intercalate l ++ "]"
-  | .dflt => match ty with | 'o' => "none" | 's' => "s:-" | 'v' => "[]" | _ => "0"
+  | .dflt => match ty with | 'o' => "none" | 'z' => "none" | 's' => "s:-" | 'v' => "[]" | _ => "0"
   | .dfltPath => match ty with | 's' => "s:64666c74" | 'v' => "[7.7.7]" | _ => "777"
 
 def runFamily (spec : List (FieldSpec × Char)) (deliver : Schema → Item → Key) (items : List Item) : String :=
